@@ -250,6 +250,12 @@ func (ec ElemCase) Build() *secp256k1.Element {
 	case "nat-mulk":
 		// the library's own [k]src: like the constructors, not second-guessed here (the property's observations judge it)
 		return src.Multiply(Scal(BigH(ec.R.L)))
+	case "nat-iso-kernel":
+		in := secp256k1.NewElement()
+		xk := oracle.FMul(oracle.FNeg(oracle.K[1][1]), oracle.FInv0(big.NewInt(2)))
+		secp256k1.VSetRaw(in, oracle.ToMont(xk, oracle.P), oracle.ToMont(big.NewInt(3), oracle.P), oracle.ToMont(big.NewInt(1), oracle.P))
+
+		return secp256k1.IsogenySecp256k13iso(in)
 	case "nat-new":
 		return secp256k1.NewElement()
 	case "nat-identity":
@@ -283,7 +289,7 @@ func MkNatElemCase(src gen.PV, i int) ElemCase {
 		p = oracle.Sub(q, oracle.G())
 	case "nat-mul":
 		p = oracle.Add(oracle.Dbl(q), q)
-	case "nat-new", "nat-identity":
+	case "nat-new", "nat-identity", "nat-iso-kernel":
 		p = oracle.Inf()
 	case "nat-base":
 		p = oracle.G()
@@ -329,4 +335,6 @@ func MkMulKElemCase(src gen.PV, k *big.Int) ElemCase {
 // NaturalKinds lists the representation kinds produced through implementation operations.
 // The last three are the package's constructors themselves (their value is what the documentation says they return; the
 // raw form they produce is not second-guessed here: the properties' own observations judge it).
-var NaturalKinds = []string{"nat-double", "nat-add", "nat-sub", "nat-mul", "nat-decode", "nat-new", "nat-identity", "nat-base"}
+// "nat-iso-kernel" is what the exported isogeny returns for the abscissa at which its denominators vanish (x' = -k21/2,
+// not the abscissa of a rational point: the documented result is the identity).
+var NaturalKinds = []string{"nat-double", "nat-add", "nat-sub", "nat-mul", "nat-decode", "nat-new", "nat-identity", "nat-base", "nat-iso-kernel"}
